@@ -502,6 +502,63 @@ theorem paramBounds_subset_names (m : M) : ∀ k ∈ (paramBounds m).map (·.1),
 
 end metaops
 
+/-! ## FWHM given the parameters of several models -/
+section foreign
+variable {α : Type} [Add α] [Sub α] [Mul α] [Div α] [Neg α] [Max α] [OfScientific α] [Trans α]
+  [Consts α]
+
+theorem lookup_append_of_not_mem {β : Type} (k : Str) (extra params : List (Str × β))
+    (h : ∀ kv ∈ extra, kv.1 ≠ k) : (extra ++ params).lookup k = params.lookup k := by
+  induction extra with
+  | nil => rfl
+  | cons kv rest ih =>
+    obtain ⟨a, b⟩ := kv
+    have ha : (k == a) = false := by
+      simp only [beq_eq_false_iff_ne, ne_eq]; exact fun e => h (a, b) (by simp) e.symm
+    simp only [List.cons_append, List.lookup, ha]
+    exact ih (fun kv hkv => h kv (by simp [hkv]))
+
+theorem lookup_append_right_of_not_mem {β : Type} (k : Str) (params extra : List (Str × β))
+    (h : ∀ kv ∈ extra, kv.1 ≠ k) : (params ++ extra).lookup k = params.lookup k := by
+  induction params with
+  | nil =>
+    simp only [List.nil_append, List.lookup]
+    have := lookup_append_of_not_mem k extra ([] : List (Str × β)) h
+    simpa using this
+  | cons kv rest ih =>
+    obtain ⟨a, b⟩ := kv
+    by_cases hk : k = a
+    · subst hk; simp [List.lookup]
+    · have ha : (k == a) = false := by simp [hk]
+      simp only [List.cons_append, List.lookup, ha, ih]
+
+/-- the key under which a model looks its scale up in `fwhm` -/
+def scaleKey (m : M) : Str := m.pre ++ sScale
+
+/-- `fwhm` reads nothing but the model's own (prefixed) scale: parameters of other models in the
+dictionary — whatever their prefixes: equally long, nested, empty — do not change the reported FWHM,
+wherever they stand in the dictionary -/
+theorem fwhm_foreign_parameters (m : M) (own before after : List (Str × Value α))
+    (hb : ∀ kv ∈ before, kv.1 ≠ scaleKey m) (ha : ∀ kv ∈ after, kv.1 ≠ scaleKey m) :
+    fwhm m (before ++ own ++ after) = fwhm m own := by
+  cases m <;>
+    simp only [fwhm, PeakModels.get, scaleKey, M.pre] at * <;>
+    first
+      | rfl
+      | (rw [lookup_append_right_of_not_mem _ _ _ ha, lookup_append_of_not_mem _ _ _ hb])
+
+/-- and the FWHM it reports is that of this scale -/
+theorem fwhm_of_own_scale (m : M) (params : List (Str × Value α)) (s : Value α)
+    (h : params.lookup (scaleKey m) = some s) :
+    fwhm m params = match m with
+      | .gaussian _ => .ok ⟨gaussianFwhm s.val, s.unit⟩
+      | .lorentzian _ => .ok ⟨lorentzianFwhm s.val, s.unit⟩
+      | .pseudoVoigt _ => .ok ⟨pseudoVoigtFwhm s.val, s.unit⟩
+      | _ => .error .notimpl := by
+  cases m <;> simp only [fwhm, PeakModels.get] <;> first | rfl | (unfold scaleKey M.pre at h; simp only at h; rw [h]; rfl)
+
+end foreign
+
 /-! ## non-vacuity of the key / unit statements: a carrier on which everything computes -/
 section nonvacuity
 local instance : Add Unit := ⟨fun _ _ => ()⟩
@@ -532,6 +589,10 @@ example : ∃ v, pseudoVoigtV (⟨(), uC⟩ : Value Unit) ⟨(), uM⟩ ⟨(), uM
 example : hornerUnits uM (U.div uC uM) [uC] = .ok uC := rfl
 example : mkComposite (.gaussian []) (.lorentzian []) [] = .error .value := rfl
 example : mkPolynomial 0 [] = .error .value := rfl
+/-- peak `p1_` handed the scales of `p2_` and of itself reports its own -/
+example : fwhm (M.gaussian [112, 49, 95]) ([([112, 50, 95] ++ sScale, (⟨(), uM⟩ : Value Unit))] ++
+    [([112, 49, 95] ++ sScale, ⟨(), uC⟩)] ++ []) = .ok ⟨(), uC⟩ := rfl
+
 end nonvacuity
 
 end ScnVerif.Props.C16
